@@ -72,7 +72,29 @@ func (w *worker) readVerdict(doc any) (read, cacheOK bool, spec *specs.Spec) {
 	return err == nil, cacheOK, spec
 }
 
+// leftovers: what interrupted or foreign writers left in the directory written to - temporary-looking
+// neighbours of the names written, longer than any document of the sweep and not YAML. A writer
+// that stages its output in a file it finds there must not let any of it through.
+var leftoverNames = []string{"out.tmp", "out.json.tmp", "out.yaml.tmp", "spec.tmp", ".out.yaml.tmp", "out.yaml~"}
+var leftoverBig = bytes.Repeat([]byte("stale: [ {\n"), 3<<20/11)
+var leftoverSmall = bytes.Repeat([]byte("stale: [ {\n"), 64<<10/11)
+
+func (w *worker) leftovers() {
+	for i, n := range leftoverNames {
+		p := filepath.Join(w.dir, "write", n)
+		want := leftoverSmall
+		if i == 0 {
+			want = leftoverBig
+		}
+		if fi, err := os.Lstat(p); err != nil || fi.Size() != int64(len(want)) {
+			_ = os.Remove(p)
+			_ = os.WriteFile(p, want, 0o644)
+		}
+	}
+}
+
 func (w *worker) writeVerdict(spec *specs.Spec, name string) (bool, string) {
+	w.leftovers()
 	wc, _ := cdi.NewCache(cdi.WithSpecDirs(filepath.Join(w.dir, "write")), cdi.WithAutoRefresh(false))
 	err := wc.WriteSpec(spec, name)
 	p := filepath.Join(w.dir, "write", name)
@@ -305,7 +327,7 @@ func main() {
 	})
 	cdi.SetSpecValidator(nil)
 	r.Rule = fmt.Sprintf("candidate documents = %d bases + their valid-edge single mutations (annotation key/size edges, closID edges, device-node type/permission variants, absent/empty optional members) + numeric extremes of every integer member (major/minor int64 min/max, uid/gid/fileMode/GIDs 0 and 2^32-1, hook timeout 0..2^32-1) + %d sensitive strings at 8 string positions: %d documents; "+
-		"the domain is the subset the library itself accepts (ReadSpec and cache load without a validator). Oracle: BuiltinSchema().Validate(spec)==nil, written .json/.yaml pass ValidateFile/ValidateData, and with SetSpecValidator(builtin) ReadSpec, cache load and WriteSpec give the same verdicts. non-trivial = library-valid documents",
+		"the domain is the subset the library itself accepts (ReadSpec and cache load without a validator). Oracle: BuiltinSchema().Validate(spec)==nil, written .json/.yaml (into a directory that holds long non-YAML leftovers under temporary-looking neighbour names) pass ValidateFile/ValidateData, and with SetSpecValidator(builtin) ReadSpec, cache load and WriteSpec give the same verdicts. non-trivial = library-valid documents",
 		len(bases), len(sensitive), len(cases))
 	r.Assumptions = []string{"hook timeouts outside 0..2^32-1 are outside the statement", "the builtin schema must reject {} (otherwise it is the silent no-op fallback and the run reports that)"}
 	os.RemoveAll(root)
